@@ -558,11 +558,15 @@ func c09Meta(rep *Report, c *c09Case) error {
 	}
 	file, _ := buildProgFile(kids, []int{0}, false, payload, nil, 1000, 10, false)
 	cs := J{"tab": tab, "sync": syncNums}
-	for _, mode := range []string{"normal", "sr"} {
+	modes := []string{"normal", "sr"}
+	if tab.Sdtp {
+		modes = append(modes, "api-sdtp") // the sdtp table built through the public constructors instead of decoded
+	}
+	for _, mode := range modes {
 		mode := mode
 		var f *mp4.File
 		var err error
-		if mode == "normal" {
+		if mode != "sr" {
 			f, err = mp4.DecodeFile(bytes.NewReader(file))
 		} else {
 			f, err = mp4.DecodeFileSR(bits.NewFixedSliceReader(file))
@@ -573,6 +577,19 @@ func c09Meta(rep *Report, c *c09Case) error {
 		}
 		trak := f.Moov.Trak
 		stbl := trak.Mdia.Minf.Stbl
+		if mode == "api-sdtp" {
+			var es []mp4.SdtpEntry
+			for _, x := range res.Sdtp {
+				es = append(es, mp4.NewSdtpEntry(uint8(x.Lead), uint8(x.Dep), uint8(x.Depd), uint8(x.Red)))
+			}
+			nb := mp4.CreateSdtpBox(es)
+			for i, ch := range stbl.Children {
+				if ch.Type() == "sdtp" {
+					stbl.Children[i] = nb
+				}
+			}
+			stbl.Sdtp = nb
+		}
 		if stbl.Stss != nil {
 			for s := 1; s <= c.N; s++ {
 				s := s
